@@ -45,7 +45,9 @@ RULE = (
     "are saved once per history: most valid, some unsaved / other algorithm / newer version / "
     "deleted), hash_file(state=), build() of a file or the directory on a store carrying the state, "
     "_get_hashes, build_entries(compute_hash=True), index md5() / update(new, old) / md5() of a kept "
-    "index, q_pool_hashes (_get_hashes with jobs 2..8 and large_file_threshold 0..8 over >= 2 "
+    "index, with the provenance of the old index drawn (kept in memory as built / persisted to "
+    "sqlite with DataIndex.open-commit-close and reopened / entries whose Meta lacks any subset of "
+    "inode, mtime, size), q_pool_hashes (_get_hashes with jobs 2..8 and large_file_threshold 0..8 over >= 2 "
     "touched live files, or build() of a directory of three > 1 MiB files, with a wrapper around "
     "build.hash_file that holds one pooled call back until another finished, so the unordered pool "
     "completes out of submission order; returned hashes and all later lookups judged), "
@@ -99,6 +101,8 @@ qslot_s = st.one_of(st.integers(0, 19), st.integers(0, 19), st.integers(20, 25))
 algo_s = st.sampled_from([0, 0, 1, 2])
 # same-size group (4 bytes, one of them CRLF text so md5 != md5-dos2unix) + sizes that differ
 content_s = st.one_of(
+    st.just("same-size"),   # other bytes of exactly the size the file has (had, if it is gone) now
+    st.just("same-size"),
     st.sampled_from(["p:A", "p:B", "h:610d0a62", "h:0d0a0d0a", "h:41414142"]),
     st.sampled_from(["p:A", "p:B", "h:610d0a62", "h:0d0a0d0a", "h:41414142"]),
     st.sampled_from(["p:crlf", "p:lf", "p:hello", "p:empty", "p:one", "p:nul", "p:C", "p:b512",
@@ -124,7 +128,10 @@ clock_s = st.one_of(
 prime_s = st.sampled_from([None, None, 0, 0, 1, 2])
 probe_s = st.sampled_from([None, None, None, "get", "get+info", "many", "many+infos", "hash_file",
                            "hash_file+info", "get_hashes", "get_hashes+walk", "build_file",
-                           "build_dir", "build_entries", "index"])
+                           "build_dir", "build_entries", "index", "index+reopened",
+                           "index+stripped"])
+prov_s = st.sampled_from([None, None, "reopened", "reopened", "stripped"])
+drop_s = st.lists(st.sampled_from(["inode", "mtime", "size"]), max_size=3, unique=True)
 size_s = st.sampled_from([0, 1, 2, 2, 3, 5, 5, 8, 8, 8, 8, 8, 8, 8, 8, 998, 999, 1000, 1001, 2500])
 pos_s = st.lists(
     st.one_of(st.sampled_from([0, 1, 997, 998, 999, 1000, 1001, 1997, 1998, 1999, 2497, 2499]),
@@ -242,6 +249,9 @@ class C13Machine(TraceMachine):
         self.old_epoch = 0
         self.pad = None
         self.big_k = 0
+        self.last_bytes = {}
+        self.opened = []     # sqlite-backed indexes to close
+        self.ndb = 0
         self.labels = set()
         self.cnt = {"queries": 0, "hashes_checked": 0, "cache_hits": 0, "hits_after_mutation": 0,
                     "carried": 0, "clock_resteps": 0, "histories": 1}
@@ -264,10 +274,18 @@ class C13Machine(TraceMachine):
         from dvc_data.index.save import md5 as imd5
 
         self.old = imd5(ibuild(self.ws, self.fs), state=self.state)
+        self.old_prov = "memory"
         self.state.hits = []
 
     def on_cleanup(self):
+        self.close_indexes()
         self.state.close()
+
+    def close_indexes(self, keep=None):
+        for idx in self.opened:
+            if idx is not keep:
+                idx.close()
+        self.opened = [idx for idx in self.opened if idx is keep]
 
     def on_summary(self):
         self.cnt["steps"] = len(self.trace)
@@ -295,6 +313,14 @@ class C13Machine(TraceMachine):
         if slot >= 20:
             return self.p(EXTRA[(slot - 20) % len(EXTRA)])
         return self.existing(slot)
+
+    def bytes_for(self, content, p):
+        """Decode a drawn content; "same-size" = different bytes of the size p has (or last had)."""
+        if content != "same-size":
+            return gen.content_bytes(content)
+        cur = ref.read(p) if os.path.isfile(p) else self.last_bytes.get(p, b"AAAA")
+        self.labels.add("content:same-size-other-bytes")
+        return bytes((b + 1) % 256 for b in cur)
 
     def target_path(self, t):
         return os.path.join(self.dir, "out", t[5:]) if t.startswith("@out/") else self.p(t)
@@ -560,11 +586,59 @@ class C13Machine(TraceMachine):
             self.violate("listing:build_entries", "entries do not cover exactly the files on disk")
         self.labels.add(f"q:build_entries:{name}")
 
-    def r_index_update(self, name, then_md5):
+    def old_provenance(self, prov, drop=()):
+        """Where the caller's previous index comes from: kept in memory as built (None), persisted to
+        sqlite and reopened, or an index whose entries' Meta lacks a subset of inode/mtime/size (as
+        after loading from a .dir listing, a non-local filesystem, or hand-made entries)."""
+        from dvc_data.hashfile.meta import Meta
+        from dvc_data.index.index import DataIndex, DataIndexEntry, FileStorage
+
+        if prov is None:
+            return
+        old = self.old
+        if prov == "reopened" and any(e.meta is None or (not e.meta.isdir and not e.meta.to_dict())
+                                      for _k, e in old.iteritems()):
+            # a Meta that serialises to {} is read back as "no meta at all"; update() of an old entry
+            # without meta whose key is gone from the new index raises AttributeError (also reachable
+            # with a broken-symlink entry) - a robustness matter outside this property: not generated
+            self.labels.add("old-index:not-persisted(empty-meta)")
+            return
+        if prov == "reopened":
+            self.ndb += 1
+            db = os.path.join(self.dir, f"index-{self.ndb}.db")
+            stored = DataIndex.open(db)
+            for key, entry in old.iteritems():
+                stored[key] = entry
+            stored.commit()
+            stored.close()
+            new = DataIndex.open(db)
+            self.opened.append(new)
+        else:
+            drop = sorted(set(drop) & {"inode", "mtime", "size"})
+            new = DataIndex()
+            for key, entry in old.iteritems():
+                meta = entry.meta
+                if meta is not None:
+                    d = {f: getattr(meta, f) for f in Meta.fields}
+                    d.update(dict.fromkeys(drop))
+                    meta = Meta(**d)
+                new.add(DataIndexEntry(key=key, meta=meta, hash_info=entry.hash_info,
+                                       loaded=entry.loaded))
+            prov = "stripped:" + "+".join(drop) if drop else "rebuilt"
+        new.storage_map.add_data(FileStorage(key=(), fs=self.fs, path=self.ws))
+        self.close_indexes(keep=new)
+        self.old = new
+        self.old_prov = prov
+        self.labels.add("old-index:" + prov)
+
+    def r_index_update(self, name, then_md5, prov=None, drop=()):
         from dvc_data.index.build import build as ibuild
         from dvc_data.index.save import md5 as imd5
         from dvc_data.index.update import update
 
+        self.old_provenance(prov, drop)
+        if self.mut_count > self.old_epoch and self.old_prov != "memory":
+            self.labels.add("update-after-mutation:old-index=" + self.old_prov)
         self.cnt["queries"] += 1
         new = ibuild(self.ws, self.fs)
         update(new, self.old)
@@ -579,7 +653,8 @@ class C13Machine(TraceMachine):
             self.take_hits(name)
             self.check_index("index.update+md5", new, name)
         self.state.hits = []
-        self.old, self.old_epoch = new, self.mut_count
+        self.close_indexes()
+        self.old, self.old_epoch, self.old_prov = new, self.mut_count, "memory"
 
     def prime(self, p, prime):
         """An earlier honest run of the tool hashed this path: an entry for the current triple."""
@@ -618,13 +693,18 @@ class C13Machine(TraceMachine):
             self.r_build_entries(name)
         elif probe == "index":
             self.r_index_update(name, True)
+        elif probe == "index+reopened":
+            self.r_index_update(name, False, "reopened")
+        elif probe == "index+stripped":
+            self.r_index_update(name, False, "stripped", ["inode", "mtime"][: 1 + algo % 2])
 
     # ---- mutation primitives -------------------------------------------------------------------
     def do_write_in_place(self, p, content, clock):
         before, prev = self.triple(p), os.stat(p).st_mtime_ns
         ino = os.stat(p).st_ino
+        data = self.bytes_for(content, p)
         with open(p, "r+b") as f:
-            f.write(gen.content_bytes(content))
+            f.write(data)
             f.truncate()
         if os.stat(p).st_ino != ino:
             raise HarnessError("write in place changed the inode")
@@ -634,8 +714,9 @@ class C13Machine(TraceMachine):
     def do_atomic_replace(self, p, content, clock):
         before, prev = self.triple(p), os.stat(p).st_mtime_ns
         tmp = p + ".tmp~"
+        data = self.bytes_for(content, p)
         with open(tmp, "xb") as f:
-            f.write(gen.content_bytes(content))
+            f.write(data)
         os.replace(tmp, p)
         if os.stat(p).st_ino == before[0]:
             raise HarnessError("atomic replace did not produce a new inode")
@@ -679,6 +760,7 @@ class C13Machine(TraceMachine):
         p = self.existing(slot)
         if p is None:
             return
+        self.last_bytes[p] = ref.read(p)
         os.unlink(p)
         self.after_mutation(p, None, None)
         self.labels.add("mut:delete")
@@ -689,8 +771,9 @@ class C13Machine(TraceMachine):
         p = self.missing(slot)
         if p is None:
             return
+        data = self.bytes_for(content, p)
         with open(p, "xb") as f:
-            f.write(gen.content_bytes(content))
+            f.write(data)
         self.clock(p, clock, None)
         self.after_mutation(p, None, None)
         self.labels.add("mut:recreate" if self.hist.get(p) and len(self.hist[p]) > 1
@@ -790,14 +873,22 @@ class C13Machine(TraceMachine):
         old = imd5(ibuild(self.ws, self.fs), state=self.state, name=name)
         self.take_hits(name)
         self.check_index("index.md5", old, name, all_files=True)
-        self.old, self.old_epoch = old, self.mut_count
+        self.close_indexes()
+        self.old, self.old_epoch, self.old_prov = old, self.mut_count, "memory"
         self.labels.add(f"q:index.md5:{name}")
 
-    @rule(algo=algo_s, then_md5=st.booleans())
+    @rule(algo=algo_s, then_md5=st.booleans(), prov=prov_s, drop=drop_s)
     @traced
-    def q_index_update(self, algo, then_md5):
+    def q_index_update(self, algo, then_md5, prov=None, drop=()):
         """new = build(ws); update(new, old): carried-over hashes must be those of the bytes now."""
-        self.r_index_update(ALGOS[algo], then_md5)
+        self.r_index_update(ALGOS[algo], then_md5, prov, drop)
+
+    @rule(prov=st.sampled_from(["reopened", "reopened", "stripped"]), drop=drop_s)
+    @traced
+    def old_index_provenance(self, prov, drop):
+        """The kept index is persisted and reopened / loses stat-only Meta fields now (a later
+        mutation and update() follow in the history)."""
+        self.old_provenance(prov, drop)
 
     @rule(algo=algo_s)
     @traced
@@ -847,6 +938,7 @@ class C13Machine(TraceMachine):
 
         def action(victim):
             if how == "delete" and victim in slot_files:  # link targets are never deleted
+                self.last_bytes[victim] = ref.read(victim)
                 os.unlink(victim)
                 self.after_mutation(victim, None, None)
                 self.labels.add("mut:delete")
@@ -936,6 +1028,7 @@ class C13Machine(TraceMachine):
             items.append((q, hi, info))
         if not never:
             for q in victims:
+                self.last_bytes[q] = ref.read(q)
                 os.unlink(q)
                 self.after_mutation(q, None, None)
                 self.labels.add("mut:delete")
@@ -1149,7 +1242,7 @@ class C13Machine(TraceMachine):
         if p is None:
             return
         name = ALGOS[algo]
-        data = gen.content_bytes(content)
+        data = self.bytes_for(content, p)
         mfs = MemoryFileSystem(global_store=False)
         mfs.fs.pipe_file(p, data)
         raw_before = self.state.hashes.get(p)
